@@ -96,6 +96,10 @@ pub fn check_segment(t: &TableDP, seg: &Seg, check_width: bool) -> Result<ProtoS
     let mut all_expanded: Vec<(St, Option<usize>)> = vec![]; // (state, variable it was expanded on), all earlier layers
     let mut merged: Option<(Vec<St>, St)> = None; // last merge of the current layer
     let mut cur_domain: Option<(St, Vec<isize>)> = None;
+    // every domain enumerated in the current layer: (state, values)
+    let mut layer_domains: Vec<(St, Vec<isize>)> = vec![];
+    // every transition computed in the current layer
+    let mut layer_transitions: Vec<(St, Decision, St)> = vec![];
     let mut last_transition: Option<(St, Decision, St)> = None;
     let mut impacted_true: Vec<St> = vec![];
     let mut seen_first = false;
@@ -136,6 +140,8 @@ pub fn check_segment(t: &TableDP, seg: &Seg, check_width: bool) -> Result<ProtoS
                 merged = None;
                 cur_domain = None;
                 last_transition = None;
+                layer_domains.clear();
+                layer_transitions.clear();
                 impacted_true.clear();
             }
             Ev::Impacted { var, state, ret } => {
@@ -165,20 +171,19 @@ pub fn check_segment(t: &TableDP, seg: &Seg, check_width: bool) -> Result<ProtoS
                     expanded.push(state.clone());
                 }
                 cur_domain = Some((state.clone(), decisions.clone()));
+                layer_domains.push((state.clone(), decisions.clone()));
                 last_transition = None;
             }
             Ev::Transition { src, d, dst } => {
-                match &cur_domain {
-                    Some((s, ds)) => {
-                        if s != src {
-                            return Err(format!("transition called with source {:?} while the domain being enumerated is that of {:?}", src, s));
-                        }
-                        if Some(d.variable.id()) != layer_var || !ds.contains(&d.value) {
-                            return Err(format!("transition called with decision {:?} which was not emitted by the domain callback ({:?}) of variable {:?}", d, ds, layer_var));
-                        }
-                    }
-                    None => return Err(format!("transition({:?}, {:?}) called outside of a domain enumeration", src, d)),
+                // the property constrains WHAT is passed, not the order in which the library interleaves
+                // its calls: d must have been emitted by the domain callback for (layer variable, src)
+                if Some(d.variable.id()) != layer_var {
+                    return Err(format!("transition called with a decision on variable {} but next_variable selected {:?} for this layer", d.variable.id(), layer_var));
                 }
+                if !layer_domains.iter().any(|(s, ds)| s == src && ds.contains(&d.value)) {
+                    return Err(format!("transition({:?}, {:?}) called although that decision was not emitted by the domain callback for this state in this layer (enumerated: {:?})", src, d, layer_domains.iter().filter(|(s, _)| s == src).collect::<Vec<_>>()));
+                }
+                layer_transitions.push((src.clone(), *d, dst.clone()));
                 last_transition = Some((src.clone(), *d, dst.clone()));
             }
             Ev::Cost { src, dst, d, .. } => {
@@ -187,14 +192,8 @@ pub fn check_segment(t: &TableDP, seg: &Seg, check_width: bool) -> Result<ProtoS
                 if expect != *dst {
                     return Err(format!("transition_cost(src={:?}, dst={:?}, {:?}) but transition(src, d) = {:?}", src, dst, d, expect));
                 }
-                match &last_transition {
-                    Some((s, dd, ds)) if s == src && dd == d && ds == dst => {}
-                    other => return Err(format!("transition_cost({:?},{:?},{:?}) does not follow the matching transition call (last transition: {:?})", src, dst, d, other)),
-                }
-                if let Some((s, ds)) = &cur_domain {
-                    if s != src || !ds.contains(&d.value) {
-                        return Err(format!("transition_cost called with decision {:?} outside the enumerated domain {:?} of {:?}", d, ds, s));
-                    }
+                if Some(d.variable.id()) != layer_var || !layer_domains.iter().any(|(s, ds)| s == src && ds.contains(&d.value)) {
+                    return Err(format!("transition_cost called with decision {:?} which is not in the domain enumerated for {:?} in this layer", d, src));
                 }
             }
             Ev::Merge { inputs, out } => {
